@@ -151,6 +151,49 @@ func (c *call) HasUndefined() bool {
 		if strings.Index(c.Args[i].String(), "invalid type") >= 0 {
 			return true
 		}
+		// the printed type does not show the fields of a named struct.
+		if hasInvalidType(c.Args[i], map[types.Type]bool{}) {
+			return true
+		}
+	}
+	return false
+}
+
+// hasInvalidType reports whether an unresolved type is reachable from typ, also through the fields of named structs.
+func hasInvalidType(typ types.Type, seen map[types.Type]bool) bool {
+	if typ == nil || seen[typ] {
+		return false
+	}
+	seen[typ] = true
+	switch t := typ.(type) {
+	case *types.Basic:
+		return t.Kind() == types.Invalid
+	case *types.Pointer:
+		return hasInvalidType(t.Elem(), seen)
+	case *types.Slice:
+		return hasInvalidType(t.Elem(), seen)
+	case *types.Array:
+		return hasInvalidType(t.Elem(), seen)
+	case *types.Chan:
+		return hasInvalidType(t.Elem(), seen)
+	case *types.Map:
+		return hasInvalidType(t.Key(), seen) || hasInvalidType(t.Elem(), seen)
+	case *types.Struct:
+		for i := 0; i < t.NumFields(); i++ {
+			if hasInvalidType(t.Field(i).Type(), seen) {
+				return true
+			}
+		}
+	case *types.Tuple:
+		for i := 0; i < t.Len(); i++ {
+			if hasInvalidType(t.At(i).Type(), seen) {
+				return true
+			}
+		}
+	case *types.Signature:
+		return hasInvalidType(t.Params(), seen) || hasInvalidType(t.Results(), seen)
+	case *types.Named:
+		return hasInvalidType(t.Underlying(), seen)
 	}
 	return false
 }
